@@ -70,6 +70,10 @@ def cases(draw):
                     g = used_g[draw(st.integers(0, len(used_g) - 1))]
                     rhs = draw(st.sampled_from([f"{g} + 1", f"{g} * 2", f"{g} + {ps[0]}" if ps else f"{g} - 3", f"{g} + d2.Setting"]))
                     body.append(("assign", g, rhs))
+                elif k == 5 and draw(st.booleans()):
+                    cond = draw(st.sampled_from(([ps[0] + " > 1"] if ps else []) + ([used_g[0] + " > 4"] if used_g else []) + ["d2.Setting > 3", "d3.Setting < 1"]))
+                    val = (draw(st.sampled_from([g for g, _ in gl] + ps + [str(marker)])) + f" + {marker + 50}") if has_ret else None
+                    body.append(("earlyret", cond, val))
                 elif k == 2 and funcs:
                     c = funcs[draw(st.integers(0, len(funcs) - 1))]
                     args = ", ".join(draw(st.sampled_from(["1", "2", "d3.Setting", ps[0] + " + 1" if ps else "4"])) for _ in range(c["npar"]))
@@ -82,8 +86,14 @@ def cases(draw):
                 ret = draw(st.sampled_from([g for g, _ in gl] + ps + [str(marker)])) + f" + {marker}"
             funcs.append({"name": fname, "npar": npar, "has_ret": has_ret, "params": ps, "body": body, "ret": ret})
         unused = draw(st.booleans()) and ui > 0
+        init = []  # module-level statements with visible effects, executed once in import order
+        if ui > 0:
+            for _ in range(draw(st.integers(0, 2))):
+                marker += 1
+                src = draw(st.sampled_from([g for g, _ in gl] + [str(100 * marker), "d1.Setting"]))
+                init.append((f"d{draw(st.integers(2, 4))}.Setting", f"{src} + {marker}"))
         mainblock = draw(st.booleans()) and ui > 0
-        model.append({"globals": gl, "funcs": funcs, "unused": unused, "mainblock": mainblock})
+        model.append({"globals": gl, "funcs": funcs, "unused": unused, "mainblock": mainblock, "init": init})
     # main loop: calls into every unit
     calls = []
     for ui, (uname, alias) in enumerate(units):
@@ -112,6 +122,9 @@ def render_func(f, prefix, gprefix, callprefix):
             L.append(f"    d5.Setting = {c}" if st_[3] else f"    {c}")
         elif st_[0] == "write":
             L.append(f"    {st_[1]} = {requal(st_[2], gprefix, f)}")
+        elif st_[0] == "earlyret":
+            L.append(f"    if {requal(st_[1], gprefix, f)}:")
+            L.append("        return" + (f" {requal(st_[2], gprefix, f)}" if st_[2] else ""))
     if f["ret"]:
         L.append(f"    return {requal(f['ret'], gprefix, f)}")
     return L
@@ -140,6 +153,9 @@ def render(case, with_mainblocks=True, with_unused=True):
         for g, init in m["globals"]:
             L.append(f"{g} = {init}")
             merged.append(f"{pre}{g} = {init}")
+        for dst, rhs in m.get("init", []):
+            L.append(f"{dst} = {rhs}")
+            merged.append(f"{dst} = {requal(rhs, pre, None)}")
         for f in m["funcs"]:
             L += render_func(f, "", "", "")
             merged += render_func(f, pre, pre, pre)
@@ -271,6 +287,15 @@ def check_case(case, stats=None, K=oracle.K_QUICK):
             stats.classes["library-main-block"] += 1
         if any(m["unused"] for m in model):
             stats.classes["never-called-function"] += 1
+        if any(m.get("init") for m in model):
+            stats.classes["module-level-effects"] += 1
+        if sum(1 for m in model if m.get("init")) >= 2:
+            stats.classes["two-modules-with-module-level-effects"] += 1
+        if any(st_[0] == "earlyret" for m in model[1:] for f in m["funcs"] for st_ in f["body"]):
+            stats.classes["library-early-return"] += 1
+        called = {c[0] for c in case["calls"]}
+        if any(ui not in called and model[ui].get("init") for ui in range(1, len(units))):
+            stats.classes["module-imported-for-its-module-level-code-only"] += 1
         if nmod >= 2 and collision and gw:
             stats.nontrivial.add(sha([A, opts])[:16])
             stats.sample({"modules": A, "options": opts}, limit=2)
